@@ -41,6 +41,8 @@ def runs(draw, tier):
     for i in range(N):
         b = "Z" * n if (t == "positive" or i == 0) else draw(st.sampled_from(allb))
         rows.append({"basis": b, "u": draw(U01)})
+    if draw(st.integers(0, 19)) == 0:
+        nbs = draw(st.sampled_from([129, 150, 200, 300]))      # many negative-phase chains (drawn with replacement from the data)
     return {"state": sc, "rows": rows, "pbs": pbs, "nbs": nbs,
             "k": k, "lr": draw(st.floats(1e-3, 1.0, allow_nan=False, width=64)), "epochs": draw(st.integers(1, 3)),
             "gamma": draw(st.one_of(st.none(), st.floats(0.1, 0.9, allow_nan=False, width=64))), "torch_seed": draw(st.integers(0, 2 ** 31 - 1)),
